@@ -122,12 +122,9 @@ def kinds_for(kind: str, port: str):
     if port == "a":
         k = dict(SCALAR_KINDS)
         if kind == "array":
-            k.pop("nc")
             k.update(ARRAY_EXTRA)
         return k
     k = dict(BUNDLE_KINDS)
-    if kind == "array":
-        k.pop("nc")
     return k
 
 
@@ -156,7 +153,7 @@ def complete(kind, model, rng):
     return ops
 
 
-def run_history(rec, kind, hist, sample=False):
+def run_history(rec, kind, hist, sample=False, late_reassign=False):
     """hist: [(form, port, kindname|None)].  Apply to live objects, export, compare with the final mapping."""
     import hdl21 as h
 
@@ -166,7 +163,7 @@ def run_history(rec, kind, hist, sample=False):
     # realise expressions up front (so the replay file is self-contained)
     concrete = []
     for form, port, k in hist:
-        e = None if form in ("disconnect", "disconnect!", "badtype", "badtype-replace") else realize(kind, port, k)
+        e = None if form in ("disconnect", "disconnect!", "badtype", "badtype-replace", "reinstance", "reinstance-mult") else realize(kind, port, k)
         concrete.append([form, port, k, e])
     case = {"kind": "history", "target": kind, "ops": concrete}
     built = build.Built()
@@ -190,6 +187,24 @@ def run_history(rec, kind, hist, sample=False):
             if form == "disconnect":
                 d.disconnect(pname)
                 model.pop(port, None)
+                continue
+            if form in ("reinstance", "reinstance-mult"):
+                # the designer builds the target instance anew - same connections - under the same name; the old instance object,
+                # still registered on everything it was connected to, is dropped (never added / multiplied away)
+                spec = dict([i for i in refsem.get_module(design, "T")["insts"] if i["name"] == "d"][0])
+                if form == "reinstance-mult" and kind == "array":
+                    single = h.Instance(of=mb.target(spec["of"]) if spec["of"][0] == "mod" else build.leaf_call(spec["of"][1], spec.get("tag")))
+                    for prt, ee in model.items():
+                        if ":" not in prt:
+                            single.connect(prt, mb.expr(ee))
+                    new = spec["n"] * single
+                else:
+                    new = mb.make_inst(spec)
+                    for prt, ee in model.items():
+                        if ":" not in prt:
+                            new.connect(prt, mb.expr(ee))
+                mb.insts["d"] = new
+                mb.attrs["d"] = new
                 continue
             if form in FAILING:
                 # an operation that the library refuses: nothing was made, so nothing may remain of it
@@ -226,6 +241,15 @@ def run_history(rec, kind, hist, sample=False):
             kinds_seen.setdefault(port, []).append(k)
             model[port] = e
         top = mb.finish()
+        if late_reassign and kind != "pair" and not any(":" in p and "'pref', 'd'" in str(e) for p, e in model.items()):
+            # ... and once more on the finished (not yet elaborated) module: `top.d = <new instance>` displaces the old one
+            rec.count("ops.reassign-late")
+            spec = dict([i for i in refsem.get_module(design, "T")["insts"] if i["name"] == "d"][0])
+            new = mb.make_inst(spec)
+            for prt, ee in model.items():
+                if ":" not in prt:
+                    new.connect(prt, mb.expr(ee))
+            top.d = new
     except Exception as e:
         rec.violation(f"operation-raised:{type(e).__name__}", f"history {[(f, p, k) for f, p, k, _ in concrete]} on a {kind}: "
                                                              f"a connection operation raised {oracle.exc_sig(e)[:120]}", case=case)
@@ -274,6 +298,10 @@ def gen_random(rng, kind, maxlen):
     for _ in range(rng.randint(2, maxlen)):
         port = rng.choice(ports_of(kind))
         x = rng.random()
+        if rng.random() < 0.06 and not any(":" in p and "pref" in str(model[p]) for p in model):
+            # (referrers hold references to the OLD instance's ports; they are only re-made while none is tied)
+            hist.append(("reinstance-mult" if kind == "array" and rng.random() < 0.5 else "reinstance", "a" if kind != "pair" else "a", None))
+            continue
         if rng.random() < 0.15:
             # a refused operation: replace / disconnect of an unconnected port, a non-connectable value
             if port not in model:
@@ -328,7 +356,7 @@ def run(ctx, rec):
     if ctx.nshards > 1:
         cases = cases[ctx.shard:: ctx.nshards]
     for i, (kind, hist) in enumerate(cases):
-        run_history(rec, kind, hist, sample=(i % 700 == 3))
+        run_history(rec, kind, hist, sample=(i % 700 == 3), late_reassign=(i % 5 == 0))
     rec.exhaustive = False
     rec.extra["kind_sequences_enumerated"] = len(seqs)
 
